@@ -95,7 +95,7 @@ func runC10(r *Run) {
 			once.Instance(fnName(fn)+"|store calls", true, map[string]string{"fn": fnName(fn), "store": "calls counter"})
 			base := a.Addr.X
 			fresh := false
-			if c, ok := base.(*ssa.Call); ok && (callsFn(c, m.Acquire)) {
+			if m.isAcquire(base) {
 				fresh = true
 			}
 			if _, ok := base.(*ssa.Alloc); ok {
@@ -122,11 +122,11 @@ func runC10(r *Run) {
 	ini := r.Rule("C10.init", "after acquiring a pooled transaction every field is assigned before it is published in the table", 7)
 	{
 		fn := m.Start
-		var acq *ssa.Call
+		var acq ssa.Value
 		var reg ssa.Instruction
 		eachInstr(fn, func(b *ssa.BasicBlock, i int, in ssa.Instruction) {
-			if c, ok := in.(*ssa.Call); ok && callsFn(c, m.Acquire) {
-				acq = c
+			if v, ok := in.(ssa.Value); ok && m.isAcquire(v) {
+				acq = v
 			}
 			if callsFn(in, m.Reg) {
 				reg = in
@@ -140,7 +140,7 @@ func runC10(r *Run) {
 				fv := st.Field(i)
 				ok := false
 				for _, a := range fieldAccesses(fn, fv) {
-					if a.Kind == "store" && a.Addr.X == ssa.Value(acq) && instrDominates(a.Instr, reg) {
+					if a.Kind == "store" && a.Addr.X == acq && instrDominates(a.Instr, reg) {
 						ok = true
 					}
 				}
